@@ -357,6 +357,45 @@ func structuralEdits(b *gen.Built, res *ref.XZResult) []edit {
 			add("unsupported_filter_id", "bh_filter_id", d)
 		}
 	}
+	// filter ids that need two or three bytes and whose LOW byte is the id of
+	// LZMA2 (0x121, 0x2021, 0x10021): the longer field takes the place of
+	// header padding, CRC32 re-computed
+	for _, sp := range lay.Find("bh_filter_id") {
+		var hdr, crc, pad *ref.Span
+		for _, t := range lay.Find("bh_size") {
+			if t.Off <= sp.Off && (hdr == nil || t.Off > hdr.Off) {
+				t := t
+				hdr = &t
+			}
+		}
+		for _, t := range lay.Find("bh_crc") {
+			if t.Off > sp.Off && (crc == nil || t.Off < crc.Off) {
+				t := t
+				crc = &t
+			}
+		}
+		for _, t := range lay.Find("bh_pad") {
+			if crc != nil && t.Off+t.Len == crc.Off {
+				t := t
+				pad = &t
+			}
+		}
+		if hdr == nil || crc == nil || pad == nil || sp.Len != 1 {
+			continue
+		}
+		for _, enc := range [][]byte{{0xA1, 0x02}, {0xA1, 0x40}, {0xA1, 0x80, 0x04}} {
+			extra := len(enc) - 1
+			if pad.Len < extra {
+				continue
+			}
+			d := append([]byte{}, b.Stream[:sp.Off]...)
+			d = append(d, enc...)
+			d = append(d, b.Stream[sp.Off+1:crc.Off-extra]...)
+			d = binary.LittleEndian.AppendUint32(d, crc32.ChecksumIEEE(d[hdr.Off:]))
+			d = append(d, b.Stream[crc.Off+4:]...)
+			add("unsupported_filter_id_multibyte", "bh_filter_id", d)
+		}
+	}
 	for _, sp := range lay.Find("bh_filter_psize") {
 		for _, v := range []byte{0, 2} {
 			d := clone()
